@@ -3,6 +3,7 @@ package main
 import (
 	"encoding/json"
 	"fmt"
+	"math/big"
 	"reflect"
 	"strings"
 
@@ -31,6 +32,9 @@ type jsonTarget struct {
 	// sample returns a literal with the optional fields set, as a pointer
 	sample func() interface{}
 	fresh  func() interface{}
+	// others returns literals of the same type with OTHER optional fields set than sample: receivers "that have been
+	// used" (decoding must not keep anything of what the receiver held before)
+	others func() []interface{}
 	// construct feeds a decoded literal to its constructor (nil: the literal has none of its own)
 	construct func(interface{}) error
 }
@@ -45,6 +49,12 @@ func jsonTargets() []jsonTarget {
 					RingType: ring.ConjugateInvariant, DefaultScale: rlwe.NewScale(1 << 20), NTTFlag: true}
 			},
 			func() interface{} { return &rlwe.ParametersLiteral{} },
+			func() []interface{} {
+				return []interface{}{
+					&rlwe.ParametersLiteral{LogN: 6, LogNthRoot: 9, LogQ: []int{40, 30}, LogP: []int{41, 41}, Xs: ring.Ternary{P: 0.5}, DefaultScale: rlwe.NewScale(3), NTTFlag: false},
+					&rlwe.ParametersLiteral{LogN: 4, Q: []uint64{97}, Xe: ring.Ternary{H: 2}, RingType: ring.Standard},
+				}
+			},
 			func(l interface{}) error {
 				_, err := rlwe.NewParametersFromLiteral(*l.(*rlwe.ParametersLiteral))
 				return err
@@ -54,6 +64,12 @@ func jsonTargets() []jsonTarget {
 				return &bgv.ParametersLiteral{LogN: 5, Q: q, P: p, Xs: ring.Ternary{P: 0.5}, Xe: ring.DiscreteGaussian{Sigma: 3.2, Bound: 19.2}, PlaintextModulus: 65537}
 			},
 			func() interface{} { return &bgv.ParametersLiteral{} },
+			func() []interface{} {
+				return []interface{}{
+					&bgv.ParametersLiteral{LogN: 6, LogNthRoot: 9, LogQ: []int{40, 30}, LogP: []int{41}, Xs: ring.Ternary{H: 4}, PlaintextModulus: 257},
+					&bgv.ParametersLiteral{LogN: 4, Q: []uint64{0x3fffffa8001}, Xe: ring.Ternary{P: 0.5}, PlaintextModulus: 17},
+				}
+			},
 			func(l interface{}) error {
 				_, err := bgv.NewParametersFromLiteral(*l.(*bgv.ParametersLiteral))
 				return err
@@ -64,6 +80,12 @@ func jsonTargets() []jsonTarget {
 					RingType: ring.ConjugateInvariant, LogDefaultScale: 30}
 			},
 			func() interface{} { return &ckks.ParametersLiteral{} },
+			func() []interface{} {
+				return []interface{}{
+					&ckks.ParametersLiteral{LogN: 6, Q: q, P: p, Xs: ring.Ternary{P: 0.5}, RingType: ring.Standard, LogDefaultScale: 20},
+					&ckks.ParametersLiteral{LogN: 4, LogQ: []int{50}, Xe: ring.Ternary{H: 2}, LogNthRoot: 12, RingType: ring.ConjugateInvariant, LogDefaultScale: 45},
+				}
+			},
 			func(l interface{}) error {
 				_, err := ckks.NewParametersFromLiteral(*l.(*ckks.ParametersLiteral))
 				return err
@@ -76,22 +98,41 @@ func jsonTargets() []jsonTarget {
 					IterationsParameters: &bootstrapping.IterationsParameters{BootstrappingPrecision: []float64{20, 20}, ReservedPrimeBitSize: 20},
 					Mod1Type:             mod1.CosContinuous, LogMessageRatio: utils.Pointy(12), K: utils.Pointy(12), Mod1Degree: utils.Pointy(40), DoubleAngle: utils.Pointy(2), Mod1InvDegree: utils.Pointy(5)}
 			},
-			func() interface{} { return &bootstrapping.ParametersLiteral{} }, nil},
+			func() interface{} { return &bootstrapping.ParametersLiteral{} },
+			func() []interface{} {
+				return []interface{}{
+					&bootstrapping.ParametersLiteral{Xs: ring.Ternary{H: 64}, Xe: ring.DiscreteGaussian{Sigma: 1, Bound: 6}, LogP: []int{55, 55}, K: utils.Pointy(20)},
+					&bootstrapping.ParametersLiteral{LogN: utils.Pointy(10), IterationsParameters: &bootstrapping.IterationsParameters{BootstrappingPrecision: []float64{7}}, Mod1Type: mod1.SinContinuous},
+				}
+			}, nil},
 		{"bootstrapping.ParametersLiteral+Xs",
 			func() interface{} {
 				return &bootstrapping.ParametersLiteral{LogN: utils.Pointy(8), Xs: ring.Ternary{H: 32}, Xe: ring.DiscreteGaussian{Sigma: 3.2, Bound: 19.2}}
 			},
-			func() interface{} { return &bootstrapping.ParametersLiteral{} }, nil},
+			func() interface{} { return &bootstrapping.ParametersLiteral{} },
+			func() []interface{} {
+				return []interface{}{
+					&bootstrapping.ParametersLiteral{LogSlots: utils.Pointy(4), Xs: ring.Ternary{P: 0.5}, LogP: []int{61}, Mod1Type: mod1.CosContinuous,
+						IterationsParameters: &bootstrapping.IterationsParameters{BootstrappingPrecision: []float64{9, 9}, ReservedPrimeBitSize: 30}},
+				}
+			}, nil},
 		{"mod1.ParametersLiteral",
 			func() interface{} {
 				return &mod1.ParametersLiteral{LevelQ: 9, LogScale: 60, Mod1Type: mod1.SinContinuous, Scaling: 0.5, LogMessageRatio: 8, K: 12, Mod1Degree: 63, DoubleAngle: 1, Mod1InvDegree: 7}
 			},
-			func() interface{} { return &mod1.ParametersLiteral{} }, nil},
+			func() interface{} { return &mod1.ParametersLiteral{} },
+			func() []interface{} {
+				return []interface{}{&mod1.ParametersLiteral{LevelQ: 3, LogScale: 55, Mod1Type: mod1.CosContinuous, LogMessageRatio: 4, K: 325, Mod1Degree: 177, DoubleAngle: 4}}
+			}, nil},
 		{"dft.MatrixLiteral",
 			func() interface{} {
 				return &dft.MatrixLiteral{Type: dft.HomomorphicDecode, LogSlots: 5, LevelQ: 7, LevelP: 1, Levels: []int{1, 2}, Format: dft.RepackImagAsReal, BitReversed: true, LogBSGSRatio: 2}
 			},
-			func() interface{} { return &dft.MatrixLiteral{} }, nil},
+			func() interface{} { return &dft.MatrixLiteral{} },
+			func() []interface{} {
+				return []interface{}{&dft.MatrixLiteral{Type: dft.HomomorphicEncode, LogSlots: 9, LevelQ: 12, LevelP: 2, Levels: []int{1, 1, 1, 1}, Format: dft.SplitRealAndImag,
+					Scaling: new(big.Float).SetFloat64(0.5), LogBSGSRatio: 1}}
+			}, nil},
 	}
 }
 
@@ -168,8 +209,26 @@ func jsonScenario(t jsonTarget) engine.Scenario {
 			return out, r
 		}
 		if mi < 0 {
-			// the literal's own encoding
+			// the literal's own encoding, into a fresh receiver (0) and into receivers that hold another literal
+			used := t.others()
+			ri := c.Choose(1+len(used), "receiver")
 			c.Cover("json", "own-encoding")
+			if ri > 0 {
+				c.Cover("json", "own-encoding-into-used-receiver")
+				out := used[ri-1]
+				before := fmt.Sprintf("%+v", out)
+				r := guarded(fmt.Sprint(name, "|used|", ri), func() error { return json.Unmarshal(text, out) })
+				switch {
+				case r.hung || r.panicked != nil:
+					c.Fail("C19/json/"+t.name+"/own-encoding-panic-or-hang", "into a used receiver: %s: %v", text, r)
+				case r.err != nil:
+					c.Fail("C19/json/"+t.name+"/own-encoding-not-decodable", "into a used receiver: %v\n%s", r.err, text)
+				case !reflect.DeepEqual(orig, out):
+					c.Fail("C19/json/"+t.name+"/decoding-keeps-fields-of-the-receiver", "Unmarshal(Marshal(l)) into a receiver that held %s gives %+v, want %+v (json %s)", before, out, orig, text)
+				}
+				c.Outcome(name, "own-used", ri, r.String())
+				return
+			}
 			out, r := decode("own", string(text))
 			switch {
 			case r.hung || r.panicked != nil:
